@@ -213,7 +213,7 @@ HARNESSES = [
            'transcode::stream::Forwarder::serialize', 'transcode::stream::Forwarder::serialize_with_seed', 'transcode::stream::State::*'], timeout=900, min_covers=3,
       assumes=['serde protocol: one visit_* per deserialize_any; Serialize::serialize called at most once per element; a (de)serializer stops at the first error']),
     H('U-TX', 'stream', 'tx_depth_induction_base', 'complete', ['C11', 'C12', 'C01', 'C06'], bounds='every scalar leaf outcome (bool / u64 / unit / deserializer failure) x serializer accepts / fails',
-      fns=['transcode::stream::Visitor::visit_*', 'transcode::stream::Visitor::forward_scalar'], timeout=300),
+      fns=['transcode::stream::Visitor::visit_*', 'transcode::stream::Visitor::forward_scalar'], timeout=300, min_covers=3),
     H('U-TX', 'stream', 'tx_transcode_maps_v_contract_to_error', 'complete', ['C11', 'C12'], bounds='every outcome of an abstract top-level document satisfying the subtree contract',
       fns=['transcode::stream::transcode', 'transcode::stream::State::error_source', 'transcode::stream::State::into_error'], timeout=300, min_covers=3),
     H('U-TX', 'stream', 'tx_error_attribution_depth2', 'bounded', ['C11', 'C12', 'C01'], tier='thorough', bounds='mock nesting depth 2 (collections in element, key and value position)',
